@@ -27,10 +27,10 @@ pub const NONCES: [u64; 3] = [1, 2, 3];
 /// bloom filter on the first insertion (1 bit / 64 bits), 64 keeps a hash set for three nonces.
 pub const MAX_BYTES: [Option<usize>; 4] = [None, Some(64), Some(16), Some(0)];
 
-fn issued_at(idx: u8) -> SystemTime {
+fn issued_at(idx: u8, lifetime: Duration) -> SystemTime {
     UNIX_EPOCH
         + Duration::from_secs(1_000_000)
-        + (LIFETIME / 2) * ISSUED_HALVES[idx as usize] as u32
+        + (lifetime / 2) * ISSUED_HALVES[idx as usize] as u32
 }
 
 #[derive(Clone, Copy, Debug, PartialEq, Eq)]
@@ -46,9 +46,12 @@ pub struct BloomCfg {
     /// documented contract). `true`: every presentation in any order (stronger than documented;
     /// a double acceptance there is only recorded as an outcome, not as a violation).
     pub any_order: bool,
+    /// token lifetime in milliseconds (whole seconds, fractional seconds, below one second)
+    pub lifetime_ms: u64,
 }
 
 pub struct BloomSys {
+    lifetime: Duration,
     any_order: bool,
     /// Every presentation so far was one a monotone-clock server would have made
     legal: bool,
@@ -76,6 +79,7 @@ impl Sys for BloomSys {
 
     fn new(cfg: &BloomCfg) -> Self {
         Self {
+            lifetime: Duration::from_millis(cfg.lifetime_ms),
             any_order: cfg.any_order,
             legal: true,
             real: match &cfg.max_bytes {
@@ -115,7 +119,7 @@ impl Sys for BloomSys {
         let nonce = ((op.issued as u128 + 1) << 64) | op.nonce as u128;
         let r = self
             .real
-            .check_and_insert(nonce, issued_at(op.issued), LIFETIME);
+            .check_and_insert(nonce, issued_at(op.issued, self.lifetime), self.lifetime);
         let t = ISSUED_HALVES[op.issued as usize];
         if self.max_issued.is_some_and(|m| t + 2 < m) {
             self.legal = false;
@@ -156,12 +160,13 @@ impl Sys for BloomSys {
     }
 
     fn cfg_json(c: &BloomCfg) -> Value {
-        json!({ "max_bytes": c.max_bytes, "any_order": c.any_order })
+        json!({ "max_bytes": c.max_bytes, "any_order": c.any_order, "lifetime_ms": c.lifetime_ms })
     }
     fn cfg_parse(v: &Value) -> Option<BloomCfg> {
         Some(BloomCfg {
             max_bytes: v["max_bytes"].as_u64().map(|x| x as usize),
             any_order: v["any_order"].as_bool().unwrap_or(false),
+            lifetime_ms: v["lifetime_ms"].as_u64().unwrap_or(10_000),
         })
     }
     fn op_json(op: &Present) -> Value {
